@@ -134,6 +134,10 @@ func (hd *HeaderDirectives) StripRegularConditionals(header http.Header) {
 	hd.IfUnmodifiedSince.SyncRemove(header)
 	hd.IfNoneMatch.SyncRemove(header)
 	hd.IfMatch.SyncRemove(header)
+	// Conditionals we could not parse (e.g. a malformed date) must not reach the origin either
+	for _, name := range []string{"If-Modified-Since", "If-Unmodified-Since", "If-None-Match", "If-Match"} {
+		header.Del(name)
+	}
 
 	// We need to keep If-Range for Range requests
 }
